@@ -179,6 +179,33 @@ STRENGTHENED = {
                         "on one settings list, settings compared before / after, write-back instance refuted",
     "C20-mut_C20-r5m2": "missed at first (joint_mixed computed its name filter from the first model only); experiments over a poorer and a "
                         "richer model in every order, joint_mixed as an entry point",
+    # ---- round 6 (round 5 for C08 / C17) ---------------------------------------------------------------------------
+    "C01-mut_C01-r6m1": "an edit defect (update_parameter ignoring the value 0): outside what C01 exercises (models are built, not "
+                        "edited); caught by C03, see C03-mut_C01-r6m1",
+    "C01-mut_C01-r6m2": "missed at first (get_args / get_fluxes ignore the time when the state is omitted); ModelEval's fourth point: "
+                        "the declared initial state at a later time, asked with the time only",
+    "C02-mut_C02-r6m1": "missed at first (base parameter values filtered by isinstance(int | float): numpy scalars dropped); numbers are "
+                        "rendered as Python float / int or numpy scalars (np.int64, np.float32, np.float64) by a seeded choice",
+    "C02-mut_C02-r6m2": "an edit-history defect (make_variable_static freezing an assignment into a number): outside what C02 exercises; "
+                        "caught by C03, see C03-mut_C02-r6m2",
+    "C11-mut_C11-r6m2": "missed at first (a new KNOWN_FNS row math.log2 with the base of log10, visible on constant arguments); FnLib lg2 "
+                        "(a library call on a constant) as an optional translatable; also caught by C06's sweep over math / numpy by name",
+    "C13-mut_C13-r6m1": "a query defect (get_fluxes ignoring its time argument): C13 does not ask for fluxes at supplied times; caught by "
+                        "C01, the owning check, see C01-mut_C13-r6m1",
+    "C13-mut_C13-r6m2": "an edit defect (update_parameter ignoring the value 0): caught by C03, see C03-mut_C13-r6m2",
+    "C10-mut_C10-r6m2": "the same edit defect seen from C10; caught by C03, see C03-mut_C10-r6m2",
+    "C15-mut_C15-r6m2": "an edit-history defect (update_reaction without cache invalidation): caught by C03, see C03-mut_C15-r6m2",
+    "C09-mut_C09-r6m2": "an edit-history defect (update_variable without cache invalidation; in scans only with a model evaluated before "
+                        "the scan and initial-value columns only): caught by C03; C09 now hands half of its scans an evaluated model",
+    "C18-mut_C18-r6m2": "a result-view defect (raw parameters put back only for multi-segment results): caught by C10, the owning check, "
+                        "see C10-mut_C18-r6m2",
+    "C06-mut_C06-r6m1": "missed at first (annotated assignments skipped like pass); PyFn.AnnAssign as a regular statement, AnnOn profiles",
+    "C19-mut_C19-r6m1": "missed at first (cache directory created only when the Cache object is built); in-process histories keep ONE "
+                        "Cache object across rmtree / re-pointing, wrong instance MkdirAtBuild refuted",
+    "C19-mut_C19-r6m2": "missed at first (single-key fast path bypassing the cache); key sets of size one (and zero) as regular members, "
+                        "wrong instance BypassOne refuted",
+    "C09-mut_C09-r6m1": "missed at first (get_result ignoring an error recorded after an earlier segment succeeded); failure mode "
+                        "`latestep` for protocol scans (the row fails in a later protocol step)",
 }
 rows = []
 for d in sorted(p for p in root.iterdir() if p.is_dir()):
